@@ -42,10 +42,10 @@ func ProfileFor(prop string) Profile {
 		p.Prefix = []Op{
 			{K: "NewVar", V: 0},
 			{K: "NewBind", A: 0, Cases: []*Texp{{K: "TRet", Z: 1}, deep, {K: "TMap", F1: Fn1{1, 3}, E1: &Texp{K: "TX"}}}},
-			{K: "NewMap", F1: Fn1{1, 1}, A: 2},          // n3 = a
-			{K: "NewMap", F1: Fn1{2, 1}, A: 3},          // n4 = b
+			{K: "NewMap", F1: Fn1{1, 1}, A: 2},           // n3 = a
+			{K: "NewMap", F1: Fn1{2, 1}, A: 3},           // n4 = b
 			{K: "NewMap2", F2: Fn2{1, 2, 0}, A: 4, B: 3}, // n5 = x = f(b, a)
-			{K: "NewMap", F1: Fn1{1, 0}, A: 5},          // n6
+			{K: "NewMap", F1: Fn1{1, 0}, A: 5},           // n6
 			{K: "Observe", A: 6}, {K: "Stabilize"},
 		}
 		p.Ops = 30
